@@ -265,8 +265,8 @@ func (g *clientGen) waitMode(nowaitPct int) uint8 {
 
 var setterKinds = []string{"setpid", "setratelimit", "setbackloglimit", "setenabled", "setimmutable", "setfailure", "setbacklogwaittime"}
 
-func (g *clientGen) setter(nowaitPct, okBias int) COp {
-	op := COp{K: setterKinds[g.rng.Intn(len(setterKinds))], WM: g.waitMode(nowaitPct)}
+func (g *clientGen) setter(nowaitPct, okBias int) KOp {
+	op := KOp{K: setterKinds[g.rng.Intn(len(setterKinds))], WM: g.waitMode(nowaitPct)}
 	switch op.K {
 	case "setratelimit", "setbackloglimit":
 		op.V = g.u32()
@@ -297,8 +297,8 @@ func (g *clientGen) setter(nowaitPct, okBias int) COp {
 	return op
 }
 
-func (g *clientGen) ruleOp(k string, okBias int) COp {
-	op := COp{K: k, Rule: g.rule()}
+func (g *clientGen) ruleOp(k string, okBias int) KOp {
+	op := KOp{K: k, Rule: g.rule()}
 	p := simkernel.Plan{}
 	if g.rng.Intn(30) == 0 {
 		p.SendFail = true
@@ -326,8 +326,8 @@ func (g *clientGen) statusLen() int {
 	return g.rng.Intn(32)
 }
 
-func (g *clientGen) getStatus(okBias int) COp {
-	op := COp{K: "getstatus"}
+func (g *clientGen) getStatus(okBias int) KOp {
+	op := KOp{K: "getstatus"}
 	p := simkernel.Plan{}
 	if g.rng.Intn(30) == 0 {
 		p.SendFail = true
@@ -404,7 +404,7 @@ func (g *clientGen) rulesPlan(okBias int) (simkernel.Plan, int) {
 	return p, n
 }
 
-func (g *clientGen) op(prop string) COp {
+func (g *clientGen) op(prop string) KOp {
 	x := g.rng.Intn(100)
 	switch prop {
 	case "C08":
@@ -419,11 +419,11 @@ func (g *clientGen) op(prop string) COp {
 			return g.getStatus(65)
 		case x < 85:
 			p, _ := g.rulesPlan(70)
-			return COp{K: "getrules", Plans: []simkernel.Plan{p}}
+			return KOp{K: "getrules", Plans: []simkernel.Plan{p}}
 		case x < 93:
 			return g.deleteRules()
 		case x < 96:
-			return COp{K: "wait"}
+			return KOp{K: "wait"}
 		case x < 98:
 			return g.receiveOp()
 		}
@@ -437,7 +437,7 @@ func (g *clientGen) op(prop string) COp {
 		case x < 88:
 			return g.statusAsync()
 		case x < 94:
-			return COp{K: "wait"}
+			return KOp{K: "wait"}
 		}
 		return g.closeOp()
 	case "C17":
@@ -445,7 +445,7 @@ func (g *clientGen) op(prop string) COp {
 		case x < 35:
 			return g.setter(92, 80)
 		case x < 57:
-			return COp{K: "wait"}
+			return KOp{K: "wait"}
 		case x < 69:
 			return g.closeOp()
 		case x < 77:
@@ -454,7 +454,7 @@ func (g *clientGen) op(prop string) COp {
 			return op
 		case x < 88:
 			p, _ := g.rulesPlan(90)
-			return COp{K: "getrules", Plans: []simkernel.Plan{p}}
+			return KOp{K: "getrules", Plans: []simkernel.Plan{p}}
 		case x < 92:
 			return g.deleteRules()
 		case x < 96:
@@ -472,33 +472,33 @@ func (g *clientGen) op(prop string) COp {
 		return g.getStatus(80)
 	case x < 80:
 		p, _ := g.rulesPlan(80)
-		return COp{K: "getrules", Plans: []simkernel.Plan{p}}
+		return KOp{K: "getrules", Plans: []simkernel.Plan{p}}
 	case x < 90:
 		return g.setter(30, 70)
 	case x < 95:
-		return COp{K: "wait"}
+		return KOp{K: "wait"}
 	}
 	return g.closeOp()
 }
 
-func (g *clientGen) statusAsync() COp {
-	op := COp{K: "getstatusasync", B: g.rng.Intn(2) == 0}
+func (g *clientGen) statusAsync() KOp {
+	op := KOp{K: "getstatusasync", B: g.rng.Intn(2) == 0}
 	p := simkernel.Plan{SendFail: g.rng.Intn(10) == 0}
 	op.Plans = []simkernel.Plan{p}
 	return op
 }
 
-func (g *clientGen) closeOp() COp {
+func (g *clientGen) closeOp() KOp {
 	p := simkernel.Plan{SendFail: g.rng.Intn(4) == 0} // used only if the PID has to be cleared
 	if g.rng.Intn(2) == 0 {
 		p.Items = []simkernel.Item{g.ack(0)}
 	}
-	return COp{K: "close", Plans: []simkernel.Plan{p}}
+	return KOp{K: "close", Plans: []simkernel.Plan{p}}
 }
 
-func (g *clientGen) deleteRules() COp {
+func (g *clientGen) deleteRules() KOp {
 	p, n := g.rulesPlan(85)
-	op := COp{K: "deleterules", Plans: []simkernel.Plan{p}}
+	op := KOp{K: "deleterules", Plans: []simkernel.Plan{p}}
 	for i := 0; i < n; i++ {
 		d := simkernel.Plan{}
 		if g.rng.Intn(40) == 0 {
@@ -512,8 +512,8 @@ func (g *clientGen) deleteRules() COp {
 }
 
 // receiveOp: AuditClient.Receive. What it reads is unsolicited traffic: the operation carries the
-// item, which the harness puts on the receive queue just before the call (COp.Pre).
-func (g *clientGen) receiveOp() COp {
+// item, which the harness puts on the receive queue just before the call (KOp.Pre).
+func (g *clientGen) receiveOp() KOp {
 	var it simkernel.Item
 	switch x := g.rng.Intn(20); {
 	case x < 12:
@@ -532,13 +532,13 @@ func (g *clientGen) receiveOp() COp {
 	case x == 18:
 		it = simkernel.Item{K: "nothing"}
 	default:
-		return COp{K: "receive"} // whatever is left in the queue (possibly nothing)
+		return KOp{K: "receive"} // whatever is left in the queue (possibly nothing)
 	}
-	return COp{K: "receive", Pre: []simkernel.Item{it}}
+	return KOp{K: "receive", Pre: []simkernel.Item{it}}
 }
 
-func (g *clientGen) history(prop string) CCase {
-	c := CCase{Kind: "history", BufLen: 64}
+func (g *clientGen) history(prop string) KCase {
+	c := KCase{Kind: "history", BufLen: 64}
 	switch r := g.rng.Intn(24); {
 	case r == 0:
 		c.Seq0 = 0xFFFFFFFF - uint32(g.rng.Intn(6))
@@ -557,17 +557,17 @@ func (g *clientGen) history(prop string) CCase {
 		// shapes the property names: requests, wait, wait again; Close repeated; SetPID before Close
 		switch g.rng.Intn(5) {
 		case 0:
-			c.Ops = append(c.Ops, COp{K: "wait"}, COp{K: "wait"})
+			c.Ops = append(c.Ops, KOp{K: "wait"}, KOp{K: "wait"})
 		case 1:
 			c.Ops = append(c.Ops, g.closeOp(), g.closeOp())
 		case 2:
-			c.Ops = append(c.Ops, COp{K: "wait"}, g.setter(100, 80), COp{K: "wait"})
+			c.Ops = append(c.Ops, KOp{K: "wait"}, g.setter(100, 80), KOp{K: "wait"})
 		}
 	}
 	return c
 }
 
-func (g *clientGen) fromWire() CCase {
+func (g *clientGen) fromWire() KCase {
 	n := g.rng.Intn(81)
 	switch g.rng.Intn(6) {
 	case 0:
@@ -579,10 +579,10 @@ func (g *clientGen) fromWire() CCase {
 	if g.rng.Intn(4) == 0 {
 		prior = make([]byte, 44)
 	}
-	return CCase{Kind: "fromwire", Prior: hex.EncodeToString(prior), Buf: hex.EncodeToString(g.bytesN(n))}
+	return KCase{Kind: "fromwire", Prior: hex.EncodeToString(prior), Buf: hex.EncodeToString(g.bytesN(n))}
 }
 
-func (g *clientGen) perr() CCase {
+func (g *clientGen) perr() KCase {
 	n := g.rng.Intn(12)
 	b := g.bytesN(n)
 	if n >= 4 {
@@ -593,10 +593,10 @@ func (g *clientGen) perr() CCase {
 			binary.LittleEndian.PutUint32(b, 0)
 		}
 	}
-	return CCase{Kind: "perr", Buf: hex.EncodeToString(b)}
+	return KCase{Kind: "perr", Buf: hex.EncodeToString(b)}
 }
 
-func (g *clientGen) next() CCase {
+func (g *clientGen) next() KCase {
 	x := g.rng.Intn(100)
 	switch g.ctx.Prop {
 	case "C16":
@@ -616,63 +616,63 @@ func (g *clientGen) next() CCase {
 }
 
 // fixedCases: deterministic sweeps run before the random stream.
-func (g *clientGen) fixedCases() []CCase {
-	var out []CCase
+func (g *clientGen) fixedCases() []KCase {
+	var out []KCase
 	switch g.ctx.Prop {
 	case "C16":
-		out = append(out, CCase{Kind: "consts"})
+		out = append(out, KCase{Kind: "consts"})
 		for n := 0; n <= 80; n++ { // every reply length, into a dirty and into a fresh receiver
 			ff := make([]byte, 44)
 			for i := range ff {
 				ff[i] = 0xFF
 			}
-			out = append(out, CCase{Kind: "fromwire", Prior: hex.EncodeToString(ff), Buf: hex.EncodeToString(g.bytesN(n))})
-			out = append(out, CCase{Kind: "fromwire", Prior: hex.EncodeToString(make([]byte, 44)), Buf: hex.EncodeToString(g.bytesN(n))})
+			out = append(out, KCase{Kind: "fromwire", Prior: hex.EncodeToString(ff), Buf: hex.EncodeToString(g.bytesN(n))})
+			out = append(out, KCase{Kind: "fromwire", Prior: hex.EncodeToString(make([]byte, 44)), Buf: hex.EncodeToString(g.bytesN(n))})
 		}
 		// every setter x boundary arguments x both modes, plainly acknowledged
 		for _, wmode := range []uint8{1, 2} {
-			mk := func(op COp) {
+			mk := func(op KOp) {
 				op.WM = wmode
 				op.Plans = []simkernel.Plan{{Items: []simkernel.Item{g.ack(0)}}}
-				out = append(out, CCase{Kind: "history", BufLen: 64, Ops: []COp{op}})
+				out = append(out, KCase{Kind: "history", BufLen: 64, Ops: []KOp{op}})
 			}
-			mk(COp{K: "setpid"})
-			mk(COp{K: "setimmutable"})
-			mk(COp{K: "setenabled", B: true})
-			mk(COp{K: "setenabled", B: false})
+			mk(KOp{K: "setpid"})
+			mk(KOp{K: "setimmutable"})
+			mk(KOp{K: "setenabled", B: true})
+			mk(KOp{K: "setenabled", B: false})
 			for _, fm := range []string{"silent", "log", "panic"} {
-				mk(COp{K: "setfailure", FM: fm})
+				mk(KOp{K: "setfailure", FM: fm})
 			}
 			for _, v := range []uint32{0, 1, 2, 3, 0x7fffffff, 0x80000000, 0xffffffff, 0x01020304} {
-				mk(COp{K: "setfailure", V: v})
-				mk(COp{K: "setratelimit", V: v})
-				mk(COp{K: "setbackloglimit", V: v})
+				mk(KOp{K: "setfailure", V: v})
+				mk(KOp{K: "setratelimit", V: v})
+				mk(KOp{K: "setbackloglimit", V: v})
 			}
 			for _, w := range []int32{0, 1, -1, 500, math.MaxInt32, math.MinInt32, -500, 0x01020304} {
-				mk(COp{K: "setbacklogwaittime", W: w})
+				mk(KOp{K: "setbacklogwaittime", W: w})
 			}
 		}
 		// GetStatus with every reply length 0..80
 		for n := 0; n <= 80; n++ {
-			op := COp{K: "getstatus", Plans: []simkernel.Plan{{Items: []simkernel.Item{g.ack(0), g.ownMsg(1000, g.bytesN(n), 0)}}}}
-			out = append(out, CCase{Kind: "history", BufLen: 64, Ops: []COp{op}})
+			op := KOp{K: "getstatus", Plans: []simkernel.Plan{{Items: []simkernel.Item{g.ack(0), g.ownMsg(1000, g.bytesN(n), 0)}}}}
+			out = append(out, KCase{Kind: "history", BufLen: 64, Ops: []KOp{op}})
 		}
 	case "C17":
 		for _, sp := range []bool{false, true} {
 			for _, sf := range []bool{false, true} {
 				for _, cf := range []bool{false, true} {
-					out = append(out, CCase{Kind: "concclose", SetPID: sp, SendFail: sf, CloseFail: cf, Goroutines: 8, Calls: 3, Iters: g.ctx.N(300, 3000)})
+					out = append(out, KCase{Kind: "concclose", SetPID: sp, SendFail: sf, CloseFail: cf, Goroutines: 8, Calls: 3, Iters: g.ctx.N(300, 3000)})
 				}
 			}
 		}
 	case "C18":
 		for n := 0; n <= 64; n++ { // AuditClient.Receive over the simulator, every datagram length
 			b := g.bytesN(n)
-			out = append(out, CCase{Kind: "history", BufLen: 64, Ops: []COp{{K: "receive", Pre: []simkernel.Item{rawItem(b, nil)}},
+			out = append(out, KCase{Kind: "history", BufLen: 64, Ops: []KOp{{K: "receive", Pre: []simkernel.Item{rawItem(b, nil)}},
 				{K: "receive", Pre: []simkernel.Item{rawItem(g.bytesN(g.rng.Intn(65)), nil)}}}})
 		}
 		for n := 0; n <= 8; n++ {
-			out = append(out, CCase{Kind: "perr", Buf: hex.EncodeToString(g.bytesN(n))})
+			out = append(out, KCase{Kind: "perr", Buf: hex.EncodeToString(g.bytesN(n))})
 		}
 		out = append(out, g.socketCases()...)
 	}
